@@ -4,6 +4,9 @@ import DilithiumVerif.Lemmas.Rej
 import DilithiumVerif.Lemmas.RejEta
 import DilithiumVerif.Lemmas.SamplerTotal
 import DilithiumVerif.Lemmas.ChallengeWeight
+import DilithiumVerif.Lemmas.UniformStream
+import DilithiumVerif.Lemmas.EtaStream
+import DilithiumVerif.Lemmas.SampleInBall
 /-
   C17 — Samplers are the specification's functions of their seeds and stay in range.
   Part 1: the byte-level acceptance maps and their ranges.
@@ -94,5 +97,41 @@ theorem challenge_has_weight_tau (p : Params) (hp : p ∈ allParams) (fuel : Nat
     (c.filter (fun x => x ≠ 0)).length = p.tau ∧ c.length = 256 ∧ ∀ x ∈ c, x = -1 ∨ x = 0 ∨ x = 1 := by
   obtain ⟨h1, h2⟩ := challenge_weight p hp fuel seed c h
   exact ⟨h1, h2.1, h2.2⟩
+
+/-! ## The samplers as filters of the SHAKE output stream, including when further blocks are needed -/
+
+open DV.UniformStream in
+/-- **RejNTTPoly** (FIPS 204 Alg. 30): for every seed and nonce on which `poly::uniform` returns, the result is the first
+    256 accepted 23-bit candidates (three stream bytes each, top bit dropped, accepted when < q: `cands`) of the first
+    (5 + t)·168 bytes of the SHAKE-128 output stream of the absorbed seed ‖ nonce, t the number of extra blocks squeezed. -/
+theorem matrix_sampler_is_stream_filter (fuel : Nat) (seed : List Nat) (nonce : Nat) (r : List Int)
+    (h : poly_uniform fuel seed nonce = .ok r) :
+    ∃ st t, shake128_stream_init seed nonce = .ok st ∧ r = (cands (stream128 st.s (5 + t))).take 256 ∧ r.length = 256 :=
+  poly_uniform_is_stream_filter fuel seed nonce r h
+
+open DV.EtaStream in
+/-- **RejBoundedPoly** (FIPS 204 Alg. 31): for every seed and nonce on which `poly::uniform_eta` returns, the result is the
+    first 256 accepted half-bytes (low nibble first, CoeffFromHalfByte: `etaCands`) of the first (1 + t)·136 bytes of the
+    SHAKE-256 output stream, t the number of extra blocks squeezed. -/
+theorem secret_sampler_is_stream_filter (lv : Lvl) (fuel : Nat) (seed : List Nat) (nonce : Nat) (r : List Int)
+    (h : poly_uniform_eta lv fuel seed nonce = .ok r) :
+    ∃ st t, shake256_stream_init seed nonce = .ok st ∧ r = (etaCands lv (stream256 st.s (1 + t))).take 256 ∧ r.length = 256 :=
+  poly_uniform_eta_is_stream_filter lv fuel seed nonce r h
+
+open DV.SampleInBall DV.XofSpec in
+/-- **SampleInBall** (FIPS 204 Alg. 29): for every challenge seed c̃ on which `poly::<set>::challenge` returns, the result
+    is `sampleInBall τ` of every sufficiently long prefix of the SHAKE-256 output stream H(c̃) — the first 8 bytes give
+    the sign bits (little endian, least significant first), the following bytes feed the rejection sampling of
+    j ∈ {0, …, i} for i = 256 − τ, …, 255 with c_i ← c_j, c_j ← ±1 — however many 136-byte blocks the loop had to squeeze. -/
+theorem challenge_is_sample_in_ball (p : Params) (fuel : Nat) (seed : List Nat) (c : List Int) (hl : seed.length = p.ctilde)
+    (h : poly_challenge p fuel seed = .ok c) :
+    ∃ n, ∀ m, sampleInBall p.tau (SHAKE256 seed ((n + m) * R256)) = some c :=
+  poly_challenge_is_sampleInBall p fuel seed c hl h
+
+open DV.SampleInBall in
+/-- the specification function on a concrete prefix (a test of the definition): τ = 2, sign bits 0b10, stream bytes
+    0xFF (rejected: > 254), 3, 7 -/
+example : sampleInBall 2 ([2, 0, 0, 0, 0, 0, 0, 0] ++ [0xFF, 3, 7]) =
+    some ((((List.replicate 256 (0 : Int)).set 254 0).set 3 1).set 255 0 |>.set 7 (-1)) := by decide +kernel
 
 end DV.C17
